@@ -18,6 +18,7 @@ func init() {
 func runC04(c *Ctx) {
 	runC04NodeLister(c)
 	runC04Registration(c)
+	runC04PrePredicateEvaluatedEachTime(c)
 	p, fx := c.P, c.Fx
 	const pkgFw = "pkg/scheduler/framework"
 	const pkgCommon = "pkg/scheduler/actions/common"
@@ -984,4 +985,51 @@ func runC04Registration(c *Ctx) {
 		c.Check(!found && len(instrsIn(f, isUp)) > 0, "O10", "MPT", funcKey(f)+": every pod reaches the upstream NodeInfo."+m.up, f.Pos(), "unconditional",
 			"a pod can be skipped by the node's pod-affinity bookkeeping ("+pathStr(path)+"): the upstream inter-pod-affinity filter does not see it, and a pod with a required anti-affinity term against its labels is placed next to it")
 	}
+}
+
+// runC04PrePredicateEvaluatedEachTime (O11): the pre-predicates (inter-pod affinity PreFilter state among them) are a
+// snapshot of where the other pods are, including pods placed earlier in the same attempt; AllocateJob retries a gang on
+// the next candidate domain after rolling back the previous one. The pre-predicate function the plugin registers
+// therefore evaluates on every call: every path through it runs evaluateTaskOnPrePredicate (a memo per pod keeps the
+// state computed while the siblings sat in the rolled-back domain, and pods with mutual anti-affinity land together).
+func runC04PrePredicateEvaluatedEachTime(c *Ctx) {
+	p := c.P
+	open := c.Anchor("O11", "pkg/scheduler/plugins/predicates", "predicatesPlugin", "OnSessionOpen")
+	eval := p.Func("pkg/scheduler/plugins/predicates", "", "evaluateTaskOnPrePredicate")
+	add := p.Func(pkgFramework, "Session", "AddPrePredicateFn")
+	if open == nil || eval == nil || add == nil {
+		if open != nil {
+			c.Undec("O11", "ANCHOR", "evaluateTaskOnPrePredicate / AddPrePredicateFn", open.Pos(), "not found")
+		}
+		return
+	}
+	n := 0
+	for _, in := range instrsIn(open, isCallToFn(add)) {
+		args := in.(ssa.CallInstruction).Common().Args
+		var fn *ssa.Function
+		arg := args[len(args)-1]
+		for {
+			if ct, ok := arg.(*ssa.ChangeType); ok {
+				arg = ct.X
+				continue
+			}
+			break
+		}
+		switch x := arg.(type) {
+		case *ssa.MakeClosure:
+			fn = x.Fn.(*ssa.Function)
+		case *ssa.Function:
+			fn = x
+		}
+		if fn == nil {
+			c.Undec("O11", "REG", funcKey(open)+": registered pre-predicate function", instrPos(in), "not a resolvable function value")
+			continue
+		}
+		n++
+		evaluates := p.performs(isCallToFn(eval), 2)
+		_, path, found := reachAvoiding([]cfgPos{entryPos(fn)}, isReturn, evaluates, nil)
+		c.Check(!found, "O11", "MPT", funcKey(fn)+": the pre-predicates are evaluated on every call", instrPos(in), "every path runs evaluateTaskOnPrePredicate",
+			"the registered pre-predicate function can answer without evaluating ("+pathStr(path)+"), e.g. from a per-pod memo: after a candidate domain was rolled back the later pods of the gang keep the affinity state computed while their siblings were placed there, and pods with mutual required anti-affinity are bound to one node")
+	}
+	c.Floor("O11", "MPT registered pre-predicate functions", n, 1)
 }
